@@ -415,7 +415,7 @@ def random_schedule(falcon, rng, cap, sent, nsteps):
     return run_real(falcon, cap, sent, chooser=choose, max_steps=nsteps + 30)
 
 
-def exhaustive(falcon, cap, sent, depth, limits, budget, out):
+def exhaustive(falcon, cap, sent, depth, limits, budget, out, flush=None):
     """all schedules of at most [depth] labels (application calls limited by [limits]:
     receives, sends, closes, cancels), by re-execution of prefixes"""
     stack = [()]
@@ -442,6 +442,9 @@ def exhaustive(falcon, cap, sent, depth, limits, budget, out):
         if not nxt:
             out.append((cap, sent, res))
             n += 1
+            if flush is not None and len(out) >= 2500:
+                flush(out)
+                del out[:]
         else:
             for l in nxt:
                 stack.append(prefix + (l,))
@@ -622,13 +625,23 @@ def main(ctx):
                   (1, [('m', 1), ('m', 2)], 11, (2, 1, 1, 1), 60000),
                   (0, [('m', 1), ('d', None)], 9, (2, 1, 1, 1), 20000)]
     complete = True
+    n_ex = [0]
+    state = {'any_clause': any_clause}
+
+    def flush(batch):
+        if not batch:
+            return
+        n_ex[0] += len(batch)
+        nb, corr = judge(ctx, model, batch, 'ex')
+        state['any_clause'] |= nb > 0
+        corr_all.extend(corr)
     for cap, sent, depth, limits, budget in bounds:
-        complete &= exhaustive(falcon, cap, sent, depth, limits, budget, ex_runs)
+        complete &= exhaustive(falcon, cap, sent, depth, limits, budget, ex_runs, flush)
+        flush(ex_runs)
+        del ex_runs[:]
+    any_clause = state['any_clause']
     ctx.cov['exhaustive_part'] = {'bounds': [[b[0], len(b[1]), b[2], list(b[3])] for b in bounds],
-                                  'schedules': len(ex_runs), 'complete': complete}
-    nb, corr = judge(ctx, model, ex_runs, 'ex')
-    any_clause |= nb > 0
-    corr_all += corr
+                                  'schedules': n_ex[0], 'complete': complete}
     # 2. random schedules
     n = 5000 if quick else 50000
     runs = []
